@@ -90,6 +90,21 @@ func (c *cse) setup() {
 		return
 	}
 	env.MustGit(a, "branch", "side")
+	// lockable files that exist on one branch only: absent from the work tree while the other branch is checked out
+	for _, br := range []string{"main", "side"} {
+		fs := map[string][]string{"main": {"only-main.dat", "only-main.txt"}, "side": {"only-side.dat"}}[br]
+		env.MustGit(a, "checkout", "-q", br)
+		for _, f := range fs {
+			os.WriteFile(filepath.Join(a, f), []byte(fmt.Sprintf("initial content of %s (case %d)\n", f, c.idx)), 0o644)
+		}
+		env.MustGit(a, "add", "-A")
+		if r := env.Git(a, "commit", "-q", "-m", "files of "+br+" only"); !r.OK() {
+			c.setupFail("branch-only commit", r)
+			return
+		}
+	}
+	env.MustGit(a, "checkout", "-q", "main")
+	c.files = append(c.files, "only-main.dat", "only-main.txt", "only-side.dat")
 	env.MustGit(a, "remote", "add", "origin", c.bare)
 	if r := env.Git(a, "push", "-q", "origin", "main", "side"); !r.OK() {
 		c.setupFail("initial push", r)
@@ -112,7 +127,7 @@ func (c *cse) setup() {
 	}
 	env.MustGit(b, "branch", "side", "origin/side")
 	for i, d := range []string{a, b} {
-		c.users[i] = &user{name: []string{"alice", "bob"}[i], dir: d, exp: map[string]string{}, pol: map[string]string{}, lost: map[string]string{}, dirty: map[string]bool{}, branch: "main"}
+		c.users[i] = &user{name: []string{"alice", "bob"}[i], dir: d, exp: map[string]string{}, pol: map[string]string{}, lost: map[string]string{}, dirty: map[string]bool{}, absentUnlocked: map[string]bool{}, branch: "main"}
 	}
 	c.users[0].other, c.users[1].other = c.users[1], c.users[0]
 	// lockability according to Git itself
@@ -122,7 +137,7 @@ func (c *cse) setup() {
 		c.lockable[ca[i]] = ca[i+2] == "set"
 	}
 	for _, f := range c.files {
-		if _, err := os.Stat(filepath.Join(b, f)); err != nil {
+		if _, err := os.Stat(filepath.Join(b, f)); err != nil && f != "only-side.dat" {
 			c.run.Inconclusive(fmt.Sprintf("case %d: setup: %s missing in bob's clone", c.idx, f))
 			c.abort = true
 		}
@@ -204,7 +219,13 @@ func runCase(run *evid.Run, idx int) caseOut {
 	if r.Intn(2) == 0 {
 		c.seqLen = 1 + r.Intn(16)
 	}
+	if c.t1Later && c.seqLen < 10 {
+		c.seqLen += 10 // a second page needs several locks first
+	}
 	c.t1At = 1 + r.Intn(c.seqLen)
+	if c.t1Later && c.t1At < 4 {
+		c.t1At = 4
+	}
 	if idx%4 == 0 {
 		if _, err := os.Stat(filepath.Join(sbx.RaceBinDir, "git-lfs")); err == nil {
 			re := *env
@@ -240,7 +261,9 @@ func runCase(run *evid.Run, idx int) caseOut {
 					u = map[string]int{"alice": 0, "bob": 1}[o]
 				}
 				s = step{user: u, op: "locksverify", o: opt{mode: []string{"json", "json", "json", ""}[r.Intn(4)], t1: true}}
-				if r.Intn(5) == 0 {
+				if c.t1Later {
+					s.o.mode = "json" // the plain form exits before the cache is saved: only --json can show a truncated cache
+				} else if r.Intn(5) == 0 {
 					s = step{user: u, op: "push", o: opt{t1: true}}
 				}
 			case len(c.queue) > 0:
@@ -292,7 +315,7 @@ func (c *cse) count(name string, n int64) {
 func main() {
 	run := evid.New("C16", "exploration")
 	defer sbx.RemoveBase()
-	run.Rule = "seeded sequences (length uniform in 1..30, a scripted 3-5 command opening in 3 of 5 cases) over {lock p, unlock p, unlock --id, unlock --force [p|--id], locks [--path|--id|--limit], locks --verify [--json], locks --local, locks [--verify] --cached, checkout <branch>, checkout HEAD -- <files>, edit(+add), commit, merge/pull, push [one|both branches]} executed by two users (user switches with p=0.4 per step) on two clones of one bare remote against one fake LFS server; paths: lockable LFS (*.dat), lockable non-LFS (*.txt), non-lockable LFS (*.bin), plain; coordinates per case: flavor {plain, verify5xx (one 5xx on a verifiable listing = the single known trigger), verify-unimpl (404/501 on locks/verify), locks-unimpl (404/501 on every lock endpoint), odd-path (two extra lockable files whose name contains a space, a double quote, non-ASCII letters or a tab), subdir-cwd (lock/unlock of sub/… issued from inside sub/), dup-content (edits may copy another file's content)}; in every 4th case the pushes run the race-instrumented binary and data-race reports touching commands.lockVerifier count as violations x locksverify(alice,bob) in {unset,true,false} via lfs.<url>.locksverify or lfs.locksverify x lfs.setlockablereadonly {unset,true,false} x server page size {0,1,2}; other answers arise from the sequence (409 on a held path, 403 on a foreign unlock, 404 on a stale id) or from scripted 500/502/503 on lock create/delete/list. Class = (flavor, locksverify pair, readonly on/off, page size, length bucket). Oracles after every command: push verdict, write bits of the files whose flags the command fixes, `locks --local --json` (ids and paths) of the acting user == sequence-defined expected cache (the other user's cache is compared at every change of the acting user and at the end of the sequence), `locks [--verify] --cached --json` == last unambiguous remote listing, unlock guard, no Go panic; in verify5xx cases the fault hits either the first verify request or (paginated server) every page after the first."
+	run.Rule = "seeded sequences (length uniform in 1..30, a scripted 3-5 command opening in 3 of 5 cases) over {lock p, unlock p, unlock --id, unlock --force [p|--id], locks [--path|--id|--limit], locks --verify [--json], locks --local, locks [--verify] --cached, checkout <branch>, checkout HEAD -- <files>, edit(+add), commit, merge/pull, push [one|both branches]} executed by two users (user switches with p=0.4 per step) on two clones of one bare remote against one fake LFS server; paths: lockable LFS (*.dat), lockable non-LFS (*.txt), non-lockable LFS (*.bin), plain, plus lockable files that exist on one branch only (only-main.dat/.txt, only-side.dat) and files removed from the work tree without committing (rm), so that lock/unlock (by path, --id, --force) also hit files ABSENT from the work tree, followed by the checkout/merge that brings them back; coordinates per case: flavor {plain, verify5xx (one 5xx on a verifiable listing = the single known trigger), verify-unimpl (404/501 on locks/verify), locks-unimpl (404/501 on every lock endpoint), odd-path (two extra lockable files whose name contains a space, a double quote, non-ASCII letters or a tab), subdir-cwd (lock/unlock of sub/… issued from inside sub/), dup-content (edits may copy another file's content)}; in every 4th case the pushes run the race-instrumented binary and data-race reports touching commands.lockVerifier count as violations x locksverify(alice,bob) in {unset,true,false} via lfs.<url>.locksverify or lfs.locksverify x lfs.setlockablereadonly {unset,true,false} x server page size {0,1,2}; other answers arise from the sequence (409 on a held path, 403 on a foreign unlock, 404 on a stale id) or from scripted 500/502/503 on lock create/delete/list. Class = (flavor, locksverify pair, readonly on/off, page size, length bucket). Oracles after every command: push verdict, write bits of the files whose flags the command fixes, `locks --local --json` (ids and paths) of the acting user == sequence-defined expected cache (the other user's cache is compared at every change of the acting user and at the end of the sequence), `locks [--verify] --cached --json` == last unambiguous remote listing, unlock guard, no Go panic; in verify5xx cases the fault hits either the first verify request or (paginated server) every page after the first."
 	run.Assumptions = []string{
 		"ownership ground truth = lock table of the fake server; commands of the two users never overlap in time",
 		"expected cache of a user: + lock granted (201), - unlock confirmed (200), replaced by the server's ours list at every successful `git lfs locks --verify`; after a push whose verify requests all succeeded both the unchanged and the replaced set are accepted (the statement does not say that a push refreshes the cache)",
